@@ -222,6 +222,45 @@ def envelop(l, certs, key, iv, ctype, content, s1, s2, seed):
     return _sized(lambda o, n: l.cms_envelop(o, n, cb, cb.n, alg, kb, len(key), ib, len(iv), ctype, tb, len(content), s1b, s1l, s2b, s2l), seed)
 
 
+def envelop_built(l, certs, key, iv, ctype, content, s1, s2, seed):
+    """the same EnvelopedData assembled piece by piece, as a sender that encrypts the content itself does: one
+    cms_recipient_infos_add_recipient_info per recipient, then cms_enveloped_data_to_der inside a ContentInfo header.
+    enced: SM4-CBC(key, iv, content || PKCS#7 padding), computed by the caller's reference.  -> (ret, message)"""
+    sh = shim()
+    sh.stream(seed)
+    try:
+        cap = 700 * len(certs)
+        d = Buf(cap, fill=0x5A)
+        dlen = c_size_t(0)
+        kb = Buf.of(key)
+        for cert in certs:
+            cb = Buf.of(cert)
+            iss, ser = outp(), outp()
+            pub = Buf(sizeof("SM2_KEY"), fill=0)
+            if l.x509_cert_get_issuer_and_serial_number(cb, len(cert), byref(iss[0]), byref(iss[1]), byref(ser[0]), byref(ser[1])) != 1:
+                return -11, None
+            if l.x509_cert_get_subject_public_key(cb, len(cert), pub) != 1:
+                return -12, None
+            r = l.cms_recipient_infos_add_recipient_info(d, byref(dlen), cap, pub, iss[0], iss[1], ser[0], ser[1], kb, len(key))
+            if r != 1:
+                return r, None
+        enced = MO.cbc_encrypt_pad("sm4", key, iv, content)
+        eb, ib = Buf.of(enced), Buf.of(iv)
+        (s1b, s1l), (s2b, s2l) = _opt(s1), _opt(s2)
+        alg = const("OID_sm4_cbc")
+        rinfos = Buf.of(d.raw(dlen.value))
+        inner = _to_der(lambda o, n: l.cms_enveloped_data_to_der(1, rinfos, dlen.value, ctype, alg, ib, len(iv), eb, len(enced), s1b, s1l, s2b, s2l, o, n))
+        if inner is None:
+            return -13, None
+        env = ctype_id(l, "envelopedData")
+        head = _to_der(lambda o, n: l.cms_content_info_header_to_der(env, len(inner), o, n))
+        if head is None:
+            return -14, None
+        return 1, head + inner
+    finally:
+        sh.reset()
+
+
 def deenvelop(l, cms, keyobj, cert):
     cb, ce = Buf.of(cms), Buf.of(cert)
     ct = c_int(-99)
